@@ -34,6 +34,9 @@ C['C15']=("Static analysis: the fallback chain table of selectionNetworkTypes (c
 C['C16']=("Static analysis: the failure-threshold table of markUnavailableInternal (constant propagation over its CFG: increment, compare, store for each protocol x probe/traffic; forced path), reset siblings under the collection lock, unconditional clearing of the per-address death counter on success, edge guards of every alive-transition callback, cancellation gates on every path to the counters, the suppression gate, the single writer of the kernel connectivity map, the group 'no best node => latency reset' invariant behind the group alive callback, and snapshot/restore field symmetry.",
  "Trusted: go/types, go/cfg, internal/fdt. Not decided: counting over histories, escalation timing, the reload floor.",
  "static analysis: finite decision table by constant propagation over go/cfg + sibling agreement + guard dominance + who-may-write + state-invariant pairing rule")
+C['C18']=("Static analysis: the decision table of ChooseDialTarget over 192 abstract inputs (dial mode x reserved x name class x DNS knowledge x verified-cache state), extracted by constant propagation over its CFG, equals the reference written from the property; normalisation order by dominance; re-route gate and target recomputation on every path to selection; the real-domain probe's verdict table over (err4, err6, valid4, valid6).",
+ "Trusted: go/types, go/cfg, internal/fdt, the reference tables in internal/props/c18.go (which record this fork's tested behaviour of re-routing a verified name in domain mode). Not decided: string edge cases inside net.*, cache freshness.",
+ "static analysis: finite decision tables by constant-propagation dataflow over go/cfg (exhaustive abstract inputs) + dominance / must-pass-through")
 def chk(pid):
     text,note,tech=C[pid]
     return {"property_id":pid,"quick_cmd":f"bin/daecheck -p {pid} -tier quick","thorough_cmd":f"bin/daecheck -p {pid} -tier thorough","evidence_file":f"/verif/evidence/{pid}.json",
